@@ -230,6 +230,10 @@ class Executor:
             if frame_first:
                 self.check_frame(old_heap, args, ct.modifies, "frame", end)
             for label, f in ct.ensures(c):
+                if label.startswith("assumed:"):
+                    # a clause the verifier cannot establish (stated, used by callers, listed as an assumption)
+                    self.assumed.add(f"postcondition {label} of {fi.qualname}")
+                    continue
                 self.check(f, "post", label, end)
             if ct.raises_exact:
                 for en, cond in ct.raises.items():
@@ -938,6 +942,14 @@ class Executor:
             return SV(t.embed(st, v), t)
         if t == TReal and isinstance(v, SV) and v.ty == TInt:
             return SV(z3.ToReal(v.term), TReal)
+        if t == TReal and isinstance(v, float) and (v != v or v in (float("inf"), float("-inf"))):
+            from .npmodel import is_inf, is_nan_r, is_ninf
+
+            r = st.fresh_const("extreal", z3.RealSort())
+            st.assume(is_nan_r(r) if v != v else (is_inf(r) if v > 0 else is_ninf(r)))
+            return SV(r, TReal)
+        if t == TReal and isinstance(v, (int, float)) and not isinstance(v, bool):
+            return SV(TReal.embed(st, v), TReal)
         if t.name == "Nd" and not isinstance(v, (SV, Ref)):
             from .gmodels import to_val
 
